@@ -3,6 +3,7 @@ package main
 import (
 	"bytes"
 	"crypto/sha1"
+	"encoding/json"
 	"fmt"
 	"net"
 	"net/http"
@@ -85,7 +86,7 @@ type procResult struct {
 	bad          int
 }
 
-func procOnce(bin, sig string, at time.Duration, rps, procs int) procResult {
+func procOnce(bin, sig string, at time.Duration, rps, procs int, resKind string) procResult {
 	dir, err := os.MkdirTemp("/var/tmp", "c06-proc-")
 	if err != nil {
 		return procResult{inconclusive: "tmpdir"}
@@ -101,6 +102,14 @@ func procOnce(bin, sig string, at time.Duration, rps, procs int) procResult {
 	defer srv.Close()
 
 	phout := filepath.Join(dir, "phout.log")
+	resultConf := "      type: phout\n      destination: " + phout
+	if resKind == "json" {
+		// the encoder aggregator over core/datasink/file.go; the file already holds lines of an "earlier run"
+		resultConf = "      type: jsonlines\n      sink:\n        type: file\n        path: " + phout
+		if err := os.WriteFile(phout, bytes.Repeat([]byte(staleLine), 2000), 0o644); err != nil {
+			return procResult{inconclusive: "stale-file"}
+		}
+	}
 	cfg := fmt.Sprintf(`pools:
   - id: c06
     gun:
@@ -111,8 +120,7 @@ func procOnce(bin, sig string, at time.Duration, rps, procs int) procResult {
       uris:
         - /c06 tagC06
     result:
-      type: phout
-      destination: %s
+%s
     rps:
       type: const
       ops: %d
@@ -122,7 +130,7 @@ func procOnce(bin, sig string, at time.Duration, rps, procs int) procResult {
       times: 4
 log:
   level: error
-`, ln.Addr().String(), phout, rps)
+`, ln.Addr().String(), resultConf, rps)
 	cfgPath := filepath.Join(dir, "load.yaml")
 	if err := os.WriteFile(cfgPath, []byte(cfg), 0o644); err != nil {
 		return procResult{inconclusive: "config"}
@@ -194,7 +202,11 @@ log:
 		ls = ls[:len(ls)-1]
 		res.lines = len(ls)
 		for _, l := range ls {
-			if !phoutLineOK(l, "tagC06") {
+			if resKind == "json" {
+				if !json.Valid([]byte(l)) || l == "" {
+					res.bad++
+				}
+			} else if !phoutLineOK(l, "tagC06") {
 				res.bad++
 			}
 		}
@@ -241,7 +253,7 @@ func runProc(kv map[string]string) string {
 	streak, failed := 0, 0
 	var r procResult
 	for attempt := 0; attempt < 6 && streak < 3; attempt++ {
-		r = procOnce(bin, kv["sig"], at, rps, atoi(kv["procs"]))
+		r = procOnce(bin, kv["sig"], at, rps, atoi(kv["procs"]), kv["res"])
 		if r.inconclusive != "" {
 			return "inconclusive=" + r.inconclusive
 		}
